@@ -126,7 +126,7 @@ def run_c18(tier, seed):
             return False
         return True
 
-    ops = ["set_scalar", "set_renamed", "set_array_elem", "set_string", "assign_nested", "assign_nested_nested_write", "assign_ref_same", "assign_ref_other",
+    ops = ["assign_nested_larger", "set_scalar", "set_renamed", "set_array_elem", "set_string", "assign_nested", "assign_nested_nested_write", "assign_ref_same", "assign_ref_other",
            "copy", "move", "move_nested", "move_with_ref", "set_none_ref"]
     L = 2 if tier == "quick" else 3
     hists = list(itertools.product(ops, repeat=L))
@@ -173,6 +173,20 @@ def run_c18(tier, seed):
                         b2.k = 55
                         if c.b.k == 55:
                             bad("nested-assign:not-independent", history=done)
+                elif op == "assign_nested_larger":
+                    big = HA(x=1.0, count=1, v=[0.5] * 12, name="ab")
+                    b3 = HB(alpha=big, m=np.arange(6).reshape(2, 3), k=4)
+                    before_k, before_z = c.b.k, c.z
+                    want_a = attr_value(X, c.b.alpha)
+                    for target, val in ((c, ("b", b3)), (c.b, ("alpha", big))):
+                        try:
+                            setattr(target, val[0], val[1])
+                            bad("nested-assign:larger-accepted", history=done, field=val[0])
+                        except (ValueError, MemoryError):
+                            pass
+                    # (whether a refused assignment may leave a partial update behind is C11's question, not C18's)
+                    if c.b.k != before_k or c.z != before_z:
+                        bad("nested-assign:larger-corrupts-siblings", history=done)
                 elif op == "assign_ref_same":
                     a2 = mk_a(HA, rnd, buf)
                     c.r = a2
@@ -280,6 +294,36 @@ def run_c19(tier, seed):
                 for nm, dv in (("p", 1.5), ("q", 7), ("f", 2.0)):
                     if (getattr(d, nm) == dv) != (nm not in dct):
                         bad("dict:default-elision", field=nm, value=float(getattr(d, nm)), in_dict=nm in dct)
+    # ---- a derived class re-declaring a field with another default, after the base class has been serialised
+    Base = type(grammar.uniq("JB"), (X.HybridClass,), {"_xofields": {"order": X.Field(X.Int64, default=1), "gain": X.Field(X.Float64, default=2.0)}})
+    Derived = type(grammar.uniq("JD"), (Base,), {"_xofields": {"order": X.Field(X.Int64, default=5), "gain": X.Field(X.Float64, default=2.0)}})
+    Base(order=3).to_dict()
+    for ov, gv in ((1, 2.0), (5, 2.0), (0, 0.0), (3, 1.0)):
+        hd = Derived(order=ov, gain=gv)
+        evals += 1
+        distinct.add(("derived", ov, gv))
+        try:
+            dct = hd.to_dict()
+            h2 = Derived.from_dict({k: v for k, v in dct.items() if k != "__class__"})
+            if h2.order != ov or h2.gain != gv:
+                bad("dict:value:derived-class-defaults", order=ov, gain=gv, rebuilt=(int(h2.order), float(h2.gain)), dictionary=repr(dct)[:160])
+            if ("order" in dct) != (ov != 5) or ("gain" in dct) != (gv != 2.0):
+                bad("dict:default-elision:derived-class", order=ov, gain=gv, dictionary=repr(dct)[:160])
+        except Exception as e:  # noqa
+            bad(f"dict:raised:derived:{type(e).__name__}", problem=str(e)[:200])
+    # ---- json: zero / empty values in fields with non-zero defaults
+    Knob = grammar.mkstruct(grammar.uniq("JK"), {"scale": X.Field(X.Float64, default=1.0), "n": X.Field(X.Int32, default=3), "label": X.String, "w": X.Float64[:]})
+    for sc, nn, lb, ww in ((0.0, 0, "", []), (1.0, 3, "a", [0.0]), (2.5, 0, "", [1.0, 2.0]), (0.0, 7, "zz", [])):
+        evals += 1
+        distinct.add(("knob", sc, nn, lb, len(ww)))
+        try:
+            x = Knob(scale=sc, n=nn, label=lb, w=ww)
+            js = x._to_json()
+            y = Knob(**js)
+            if not eq(plain(X, x), plain(X, y)):
+                bad("json:value:zero-or-empty-fields", original=repr(plain(X, x))[:160], rebuilt=repr(plain(X, y))[:160], json=repr(js)[:160])
+        except Exception as e:  # noqa
+            bad(f"json:raised:zero-or-empty-fields:{type(e).__name__}", problem=str(e)[:200], value=(sc, nn, lb, ww))
     # ---- json form of reference-free structs and 1-d arrays
     sl = grammar.Slice(tier)
     cands = [c for c in sl.roots if (X.struct.is_struct(c) or (X.array.is_array(c) and len(c._shape) == 1)) and not getattr(c, "_has_refs", False)]
